@@ -111,6 +111,30 @@ func runSurvey(e *Engine, what string) {
 			}
 		}
 		fmt.Printf("funcs=%d calls=%d edges=%d\n", st.Funcs, st.Calls, st.ErrEdges)
+	case "dupargs":
+		for _, f := range e.ScopeFuncs() {
+			if !e.IsLive(outermostFn(f)) {
+				continue
+			}
+			forEachCall(f, func(c ssa.CallInstruction) {
+				args := c.Common().Args
+				sig := c.Common().Signature()
+				off := 0
+				if !c.Common().IsInvoke() && sig.Recv() != nil {
+					off = 1
+				}
+				for i := off; i < len(args); i++ {
+					for j := i + 1; j < len(args); j++ {
+						if _, isC := args[i].(*ssa.Const); isC {
+							continue
+						}
+						if args[i] == args[j] || (exprKey(args[i]) != "" && exprKey(args[i]) == exprKey(args[j])) {
+							fmt.Printf("%s %s args %d,%d of %s\n", e.ipos(c), fname(f), i-off, j-off, calleeLabel(e, c))
+						}
+					}
+				}
+			})
+		}
 	case "acc":
 		for _, f := range e.ScopeFuncs() {
 			for _, lf := range loopFlags(f) {
